@@ -1,6 +1,6 @@
 (* Proofs/SideC14.v — side conditions over the prefix tables regenerated from /repo (Gen/C14.v), re-proved on
    every run, and the concrete witness schedules of the refuted statements (on the regenerated tables). *)
-From TX Require Import Base.Val Model.Hybrid Proofs.Hybrid Gen.C14 Corr.C14.
+From TX Require Import Base.Val Model.Hybrid Model.HybridNodes Proofs.Hybrid Gen.C14 Corr.C14.
 From Coq Require Import Lia.
 
 (* ---- prefix tables ---- *)
@@ -217,3 +217,35 @@ Proof.
   - repeat constructor.
   - repeat split; vm_compute; reflexivity.
 Qed.
+
+(* ---- several nodes (Model/HybridNodes.v): sequential cross-node histories, small scope ----
+   nodes 0 and 1 have private local caches, node 2 is a cold-cache node; alphabet per step: node 0/1 x {Set v1, Set v2, Delete, Get},
+   cold node x {Get}.  Checked along every history of length <= 4 from the empty world: a Get issued by a cold-cache node, by the
+   node that made the latest write, or by ANY node when the key's cache tier is the shared cache, returns exactly the latest completed
+   write (not found after Delete).  The unbounded statement is C14_cross_node_full_statement. *)
+Definition mstep_alphabet (k : kbytes) : list (nat * op) :=
+  flat_map (fun i => [(i, OSet k (VStr 1)); (i, OSet k (VStr 2)); (i, ODel k); (i, OGet k)]) [0; 1] ++ [(2, OGet k)].
+Fixpoint mseqs (n : nat) (al : list (nat * op)) : list (list (nat * op)) :=
+  match n with 0 => [[]] | S m => [] :: flat_map (fun o => map (cons o) (mseqs m al)) al end.
+Fixpoint mfresh_ok (c : cfg) (k : kbytes) (m : mworld) (steps : list (nat * op)) (latest : option value) (lw : nat) : bool :=
+  match steps with
+  | [] => true
+  | (i, o) :: r =>
+      let '(m', x) := mexec GenTables c m i o in
+      let must := (2 <=? i) || (i =? lw) || tier_eqb (cache_tier_for_key GenTables c k) TShared in
+      let ok := match o with OGet _ => negb must || ores_eqb x (Some (val_res latest)) | _ => true end in
+      let latest' := match o with OSet _ v => Some v | ODel _ => None | _ => latest end in
+      let lw' := match o with OSet _ _ | ODel _ => i | _ => lw end in
+      ok && mfresh_ok c k m' r latest' lw'
+  end.
+Definition m_empty : mworld := {| m_locals := [empty_store; empty_store]; m_shared := empty_store; m_pers := empty_store |}.
+
+Lemma cross_node_small_scope :
+  forallb (fun ck => forallb (fun h => mfresh_ok (fst ck) (snd ck) m_empty h None 9) (mseqs 4 (mstep_alphabet (snd ck)))) all_cases = true.
+Proof. vm_compute. reflexivity. Qed.
+
+(* inherent to node-local caching (recorded known finding cross-node-stale-local-cache): node 0 sets v1, node 1 sets v2, node 0 still reads v1 *)
+Lemma cross_node_warm_local_cache_witness :
+  snd (mexec_seq GenTables cfg_local m_empty [(0, OSet k_user (VStr 1)); (1, OSet k_user (VStr 2)); (0, OGet k_user); (2, OGet k_user)])
+  = [Some ROk; Some ROk; Some (RVal (VStr 1)); Some (RVal (VStr 2))].
+Proof. vm_compute. reflexivity. Qed.
